@@ -10,7 +10,7 @@ Require Import ExtrOcamlBasic.
 Require Import ExtrOcamlNatInt.
 Require Import Selen.Model.Prelude Selen.Model.SparseSet Selen.Model.SetSpec.
 Require Import Selen.Model.Dom Selen.Model.Views Selen.Model.PropDefs Selen.Model.Props.Basic Selen.Model.Props.LinInt Selen.Model.Props.Global Selen.Model.Props.Logic Selen.Model.Propagate Selen.Model.Search.
-Require Import Selen.Model.LP Selen.Model.Limits.
+Require Import Selen.Model.LP Selen.Model.Limits Selen.Generated.Consts.
 Require Import Selen.Model.Gac Selen.Model.Props.AllDiff.
 Require Import Selen.Model.B64 Selen.Model.FloatInterval Selen.Model.CtxFloat.
 Require Import Selen.Model.Api Selen.Model.Lower.
@@ -28,7 +28,7 @@ Extraction "selen_model.ml"
   mk_band mk_bor mk_bnot mk_bxor mk_eq_reif mk_ne_reif mk_lt_reif mk_le_reif mk_gt_reif mk_ge_reif
   mk_alleq mk_alleq_fixed kf_alleq_empty mk_between mk_ite
   fifo lcg_pick propagate prop_fuel agenda_with search enumerate minimize maximize solve
-  solve_lim minimize_lim enumerate_lim never from_check
+  solve_lim minimize_lim enumerate_lim never from_check engine_check_interval
   fold fold_cons eval_expr eval_cons holds stmt_cons build lower validate psat to_linear linform
   kf_or_not kf_nested_ne kf_aux_bounds win_cons impl_cons exec_cons all_asgs asg_of_list or_eq_pattern
   mkLP lp_wf feasible objective check_opt check_infeasible feasible_tol q_close_rel lp_solve f64_to_Q qdot lp_nvars needs_phase1
